@@ -144,7 +144,8 @@ struct Built {
 }
 
 fn build_and_run(mask: u32, worker: usize, input: &str) -> Built {
-  let dir = format!("{WORK}/w{worker}");
+  // worker usize::MAX = the directory reserved for the all-features reference (so that it stays built between runs)
+  let dir = if worker == usize::MAX { format!("{WORK}/wref") } else { format!("{WORK}/w{worker}") };
   let fl = feats(mask).join(",");
   let mut b = Built { mask, obs: BTreeMap::new(), build_error: None, run_error: None };
   let out = Command::new("cargo")
@@ -257,9 +258,13 @@ pub fn run(tier: Tier) -> i32 {
       Tier::Thorough => (0..256).collect(),
     },
   };
-  let workers = tier.pick(4usize, 8usize);
-  // reference first (it also primes worker 0), then the combinations, each worker owning one target directory
-  let reference = build_and_run(ALL, 0, &input);
+  let workers = tier.pick(6usize, 8usize);
+  // reference first, in its own target directory (primed from w0, which setup_cmd builds), then the combinations, each
+  // worker owning one target directory
+  if !std::path::Path::new(&format!("{WORK}/wref")).exists() && std::path::Path::new(&format!("{WORK}/w0")).exists() {
+    let _ = Command::new("cp").args(["-a", &format!("{WORK}/w0"), &format!("{WORK}/wref")]).status();
+  }
+  let reference = build_and_run(ALL, usize::MAX, &input);
   if let Some(e) = reference.build_error.as_ref().or(reference.run_error.as_ref()) {
     if e.starts_with("ENGINE") {
       println!("ENGINE-ERROR C19 reference build: {e}");
@@ -269,10 +274,10 @@ pub fn run(tier: Tier) -> i32 {
     return run.finish();
   }
   // prime the other workers from worker 0 (dependencies are the same for every combination)
-  for w in 1..workers {
+  for w in 0..workers {
     let d = format!("{WORK}/w{w}");
     if !std::path::Path::new(&d).exists() {
-      let _ = Command::new("cp").args(["-a", &format!("{WORK}/w0"), &d]).status();
+      let _ = Command::new("cp").args(["-a", &format!("{WORK}/wref"), &d]).status();
     }
   }
   let todo: Vec<u32> = masks.iter().copied().filter(|m| *m != ALL).collect();
@@ -425,7 +430,7 @@ pub fn replay(case: &serde_json::Value) -> Option<Viol> {
       let i = inputs(t);
       std::fs::write(&input, serde_json::to_string(&i).unwrap()).ok()?;
       found = Some(i);
-      let reference = build_and_run(ALL, 0, &input);
+      let reference = build_and_run(ALL, usize::MAX, &input);
       let b = build_and_run(mask, 0, &input);
       if let Some(e) = &b.build_error {
         return Some(Viol { kind: "does-not-build".into(), case: case.clone(), observed: trunc(e), expected: "builds".into(), finding: None });
